@@ -527,16 +527,32 @@ def _occurs(value, sym):
 
 def tasks(tier):
     return [("Patch", t_patch), ("PatchSet.__init__", t_init), ("PatchSet.__getitem__", t_getitem), ("PatchSet.__len__", t_len_iter),
-            ("PatchSet.verify", t_verify), ("PatchSet.verify.history", t_verify_history), ("PatchSet.apply", t_apply), ("utils.digest", t_digest)]
+            ("PatchSet.verify", t_verify), ("PatchSet.verify.history", t_verify_history), ("PatchSet.apply", t_apply), ("utils.digest", t_digest),
+            # apply returns Workspace(patched): the result must not share state with the stored patch values or the background
+            ("Workspace.__init__.ownership", _ownership)]
+
+
+def _ownership(T):
+    from .C16_workspace_ops import run_constructor_ownership
+    run_constructor_ownership(T)
 
 
 def replay(r):
+    if (r.get("meta") or {}).get("constructor"):
+        from .C16_workspace_ops import replay as r16
+        return r16(r)
+    return _replay(r)
+
+
+def _replay(r):
     """native replay: a fixed battery of schema-valid patch sets against the oracle of the statement
     (distinct names and distinct value tuples are accepted whatever the names are; each patch is
     retrievable by exactly its name and its value tuple; duplicates rejected)"""
     name = r["name"]
     import pyhf
     from pyhf.exceptions import InvalidPatchSet, InvalidPatchLookup
+    if "utils.py::digest" in name:
+        return _replay_digest(pyhf)
     if "PatchSet.verify" in name or "PatchSet.apply" in name:
         return _replay_verify_apply(pyhf)
     if "PatchSet.__init__" not in name and "PatchSet.__getitem__" not in name:
@@ -589,6 +605,39 @@ def replay(r):
                     bad[tag + f":lookup-{other}"] = f"lookup of a key that belongs to no patch returned {got_other!r}"
                 except InvalidPatchLookup:
                     pass
+    return {"reproduced": bool(bad), "disagreements": bad}
+
+
+def _replay_digest(pyhf):
+    """the real utils.digest against hashlib over the canonical JSON text, for objects from a few bytes to several hundred KiB, and a
+    single-character corruption at EVERY position of a sizeable object region (incl. around powers of two) must change the digest"""
+    import hashlib
+    import json
+    bad = {}
+    objs = {"small": {"a": 1, "b": [1.5, "x", None]}, "unicode": {"k": "\u00e9\u4e2d"},
+            "70KiB": {"channels": [{"name": f"c{i}", "data": [float(j) for j in range(40)]} for i in range(280)]},
+            "300KiB": {"channels": [{"name": f"channel{i}", "data": [float(j) + 0.5 for j in range(60)]} for i in range(800)]}}
+    for tag, obj in objs.items():
+        text = json.dumps(obj, sort_keys=True, ensure_ascii=False).encode("utf8")
+        for alg in ("sha256", "md5", "sha512"):
+            want = hashlib.new(alg, text).hexdigest()
+            try:
+                got = pyhf.utils.digest(obj, algorithm=alg)
+            except Exception as e:
+                got = f"{type(e).__name__}: {e}"
+            if got != want:
+                bad[f"{tag}:{alg}"] = {"bytes": len(text), "digest": got, "hashlib over the canonical JSON": want}
+    # every single-leaf corruption is seen: change one number at a time across a large object
+    big = objs["70KiB"]
+    ref = pyhf.utils.digest(big)
+    import copy
+    for i in range(0, 280, 7):
+        for j in (0, 13, 39):
+            c = copy.deepcopy(big)
+            c["channels"][i]["data"][j] += 1.0
+            if pyhf.utils.digest(c) == ref:
+                bad[f"corruption c{i}[{j}]"] = "digest unchanged"
+                break
     return {"reproduced": bool(bad), "disagreements": bad}
 
 
